@@ -47,7 +47,7 @@ ACTIONS = {
     "view": ("VWriteC", "VWriteQ", "VSetAtom", "VTranslate", "SetW", "AssignC", "AssignQ", "AssignW"),
     "append": ("AppendC", "ExtendList"),
     "xform": ("Scale", "Invert", "Translate", "Rotate", "CenterAt", "RotateStack", "TranslateStack"),
-    "copy": ("NewCopy", "SrcWriteC", "SrcWriteQ", "SrcSetW", "SrcTranslate"),
+    "copy": ("CopyCtor", "SrcWriteC", "SrcWriteQ", "SrcSetW", "SrcTranslate"),
     "dump": ("Dump", "Ser"),
     "io": ("CDump", "CSer", "Slice"),
 }
